@@ -11,7 +11,7 @@ import random
 import numpy as np
 
 from sim import calsim
-from sim.compsim import gen_losses, grid_points, make_space, on_grid, pin_third_party, quiet, restart
+from sim.compsim import gen_losses, grid_points, make_space, on_grid, out_of_bounds, pin_third_party, quiet, restart
 from sim.core import Check, Result, jdigest
 from sim.seams import Seams
 
@@ -70,6 +70,12 @@ def run_compsim(scn, res: Result, check_fn=None):
                 pts, losses = p0, l0
             if out.shape != (sampler.batch_size, space.dims):
                 res.add("shape", cls, f"{cls} returned shape {out.shape}, expected {(sampler.batch_size, space.dims)} (op {oi}, call #{n_samples})")
+                break
+            oob = out_of_bounds(scn["space"], out)
+            if oob is not None:
+                i, j, v = oob
+                res.add("out-of-bounds", cls, f"{cls} call #{n_samples} (op {oi}) proposed {v!r} for parameter {j}, outside the declared "
+                                              f"bounds [{scn['space']['bounds'][0][j]!r}, {scn['space']['bounds'][1][j]!r}] (precision {scn['space']['precision'][j]!r})")
                 break
             bad = on_grid(space, out)
             if bad is not None:
